@@ -25,6 +25,7 @@
 long vj_live;
 unsigned vj_parse_calls;
 unsigned vj_dump_calls;
+size_t vj_parse_flags;
 
 static json_malloc_t vj_malloc_fn;
 static json_free_t vj_free_fn;
@@ -69,6 +70,7 @@ vj_t *vj_new(json_type t)
 	v->weight = 1;
 	v->dead = 0;
 	v->attached = 0;
+	v->nul_inside = 0;
 	for (k = 0; k < VJ_MAXM; k++) {
 		v->val[k] = NULL;
 		v->key[k][0] = '\0';
@@ -256,7 +258,7 @@ json_t *json_object_get(const json_t *object, const char *key)
 	return NULL;
 }
 
-int json_object_set_new(json_t *object, const char *key, json_t *value)
+static int vj_object_set_new(json_t *object, const char *key, json_t *value, int check_root)
 {
 	vj_t *o = VJ(object);
 	unsigned k;
@@ -275,7 +277,8 @@ int json_object_set_new(json_t *object, const char *key, json_t *value)
 		json_decref(value);
 		return -1;
 	}
-	VJ_ROOT(object);
+	if (check_root)
+		VJ_ROOT(object);
 	/* same key already present: the value is replaced in place */
 	for (k = 0; k < VJ_MAXM; k++) {
 		if (o->val[k] && vj_keyeq(o->key[k], key)) {
@@ -309,6 +312,16 @@ int json_object_set_new(json_t *object, const char *key, json_t *value)
 	}
 	VF_BOUND(0, "object capacity VJ_MAXM exceeded");
 	return -1;
+}
+
+int json_object_set_new(json_t *object, const char *key, json_t *value)
+{
+	return vj_object_set_new(object, key, value, 1);
+}
+
+int json_object_set_new_nocheck(json_t *object, const char *key, json_t *value)
+{
+	return vj_object_set_new(object, key, value, 1);
 }
 
 int json_object_del(json_t *object, const char *key)
@@ -433,6 +446,7 @@ static vj_t *vj_copy_node(const vj_t *s)
 	d->n = s->n;
 	d->nk = s->nk;
 	d->weight = s->weight;
+	d->nul_inside = s->nul_inside;
 	for (i = 0; i <= VJ_SLEN; i++)
 		d->s[i] = s->s[i];
 	for (k = 0; k < VJ_MAXM; k++) {
@@ -498,6 +512,8 @@ static int vj_eq_node(const vj_t *a, const vj_t *b)
 	if (a->j.type == JSON_INTEGER)
 		return a->ival == b->ival;
 	if (a->j.type == JSON_STRING) {
+		if (a->nul_inside != b->nul_inside)
+			return 0;
 		for (i = 0; i <= VJ_SLEN; i++) {
 			if (a->s[i] != b->s[i])
 				return 0;
@@ -607,6 +623,267 @@ int vj_equal(const json_t *a, const json_t *b)
 	return vj_eq2(VJ(a), VJ(b));
 }
 
+/* ---- API that libjwt does not call at the pinned commit ----
+ * Modelled (after the jansson 2.14 manual) so that a change which starts to call one of these is
+ * analysed with its real semantics - sharing of values between containers included - instead of
+ * being cut at a function without a body. */
+json_t *json_copy(json_t *json)
+{
+	vj_t *s = VJ(json), *d;
+	unsigned k, i;
+
+	VJ_ALIVE(json);
+	if (!json)
+		return NULL;
+	if (s->j.refcount == (size_t)-1)
+		return json;
+	if (s->j.type != JSON_OBJECT && s->j.type != JSON_ARRAY) {
+		d = vj_copy_node(s);
+		return d ? &d->j : NULL;
+	}
+	/* shallow: a new container whose members are the SAME values (one more reference each) */
+	d = vj_new(s->j.type);
+	if (!d)
+		return NULL;
+	for (k = 0; k < VJ_MAXM; k++) {
+		for (i = 0; i <= VJ_KLEN; i++)
+			d->key[k][i] = s->key[k][i];
+		if (s->val[k]) {
+			if (!vj_tick()) {
+				json_decref(&d->j);
+				return NULL;
+			}
+			vj_attach(d, k, VJ(json_incref(&s->val[k]->j)));
+		}
+	}
+	d->n = s->n;
+	return &d->j;
+}
+
+int json_integer_set(json_t *integer, json_int_t value)
+{
+	VJ_ALIVE(integer);
+	if (!integer || integer->type != JSON_INTEGER)
+		return -1;
+	VJ(integer)->ival = value;      /* in place: visible through every container sharing it */
+	return 0;
+}
+
+int json_string_set(json_t *string, const char *value)
+{
+	size_t i, len;
+	_Bool high = 0;
+
+	VJ_ALIVE(string);
+	if (!string || string->type != JSON_STRING || !value)
+		return -1;
+	len = strlen(value);
+	VF_BOUND(len <= VJ_SLEN, "string longer than VJ_SLEN given to json_string_set");
+	for (i = 0; i < VJ_SLEN; i++)
+		if (i < len && ((unsigned char)value[i]) >= 0x80)
+			high = 1;
+	if (high && nondet_bool())
+		return -1;
+	if (!vj_tick())
+		return -1;
+	for (i = 0; i <= VJ_SLEN; i++)
+		VJ(string)->s[i] = (i < len) ? value[i] : '\0';
+	return 0;
+}
+
+size_t json_string_length(const json_t *string)
+{
+	VJ_ALIVE(string);
+	if (!string || string->type != JSON_STRING)
+		return 0;
+	if (VJ(string)->nul_inside) {
+		size_t n = nondet_size_t();
+		__CPROVER_assume(n > strlen(VJ(string)->s) && n <= VJ_SLEN + 8);
+		return n;
+	}
+	return strlen(VJ(string)->s);
+}
+
+int json_equal(const json_t *a, const json_t *b)
+{
+	VJ_ALIVE(a);
+	VJ_ALIVE(b);
+	if (!a || !b)
+		return 0;
+	return vj_equal(a, b);
+}
+
+int json_object_update_existing(json_t *object, json_t *other)
+{
+	unsigned k;
+
+	VJ_ALIVE(object);
+	VJ_ALIVE(other);
+	if (!object || object->type != JSON_OBJECT || !other || other->type != JSON_OBJECT)
+		return -1;
+	for (k = 0; k < VJ_MAXM; k++) {
+		vj_t *c = VJ(other)->val[k];
+		if (c && json_object_get(object, VJ(other)->key[k]))
+			json_object_set_new(object, VJ(other)->key[k], json_incref(&c->j));
+	}
+	return 0;
+}
+
+/* object-valued members present on both sides are merged member by member (one nested level is
+ * modelled; a second level of object-in-object on both sides is a bound of the encoding).
+ * The keys of `other` are pairwise distinct, so which of its members meet an object-valued member
+ * of `object` can be decided against the state before the first change (pass 1); the changes
+ * follow in member order (pass 2).  Same result as jansson's loop, much smaller symbolic state. */
+static int vj_merge_member(vj_t *n, unsigned q, const char *key, vj_t *g)
+{
+	/* same key text already sits in the same slot (a key never occupies two slots) */
+	if (vj_keys_same(n->key[q], key)) {
+		if (n->val[q]) {
+			vj_detach(n, q);
+		} else if (!vj_tick()) {
+			json_decref(&g->j);
+			return -1;
+		}
+		vj_attach(n, q, g);
+		return 0;
+	}
+	return vj_object_set_new(&n->j, key, &g->j, 0);
+}
+
+int json_object_update_recursive(json_t *object, json_t *other)
+{
+	vj_t *o = VJ(object);
+	vj_t *mn[VJ_MAXM];
+	unsigned k, j, q;
+
+	VJ_ALIVE(object);
+	VJ_ALIVE(other);
+	if (!object || object->type != JSON_OBJECT || !other || other->type != JSON_OBJECT)
+		return -1;
+	for (k = 0; k < VJ_MAXM; k++) {
+		vj_t *c = VJ(other)->val[k];
+		mn[k] = NULL;
+		if (!c || c->j.type != JSON_OBJECT)
+			continue;
+		for (j = 0; j < VJ_MAXM; j++)
+			if (o->val[j] && o->val[j]->j.type == JSON_OBJECT && vj_keyeq(o->key[j], VJ(other)->key[k]))
+				mn[k] = o->val[j];
+	}
+	for (k = 0; k < VJ_MAXM; k++) {
+		vj_t *c = VJ(other)->val[k], *n = mn[k];
+		if (!c)
+			continue;
+		if (!n) {
+			if (json_object_set_new(object, VJ(other)->key[k], json_incref(&c->j)))
+				return -1;
+			continue;
+		}
+		VF_BOUND(n->j.refcount <= 1, "json_object_update_recursive into an object shared by two containers");
+		for (q = 0; q < VJ_MAXM; q++) {
+			vj_t *g = c->val[q];
+			json_t *gc;
+			unsigned before = n->weight;
+			if (!g)
+				continue;
+			gc = json_object_get(&n->j, c->key[q]);
+			if (gc && gc->type == JSON_OBJECT && g->j.type == JSON_OBJECT) {
+				/* second nested level: merging an EMPTY object changes nothing; more is a bound */
+				VF_BOUND(g->nk == 0, "json_object_update_recursive deeper than one nested level");
+				continue;
+			}
+			if (vj_merge_member(n, q, c->key[q], VJ(json_incref(&g->j))))
+				return -1;
+			o->weight += n->weight - before;
+		}
+	}
+	return 0;
+}
+
+/* iteration (json_object_foreach): the iterator is the address of the slot's value pointer; the
+ * object being walked is remembered, as jansson's iterators are only meaningful with it */
+static vj_t *vj_iter_obj;
+
+static void *vj_iter_from(vj_t *o, unsigned from)
+{
+	unsigned k;
+	for (k = 0; k < VJ_MAXM; k++)
+		if (k >= from && o->val[k])
+			return &o->val[k];
+	return NULL;
+}
+
+void *json_object_iter(json_t *object)
+{
+	VJ_ALIVE(object);
+	if (!object || object->type != JSON_OBJECT)
+		return NULL;
+	vj_iter_obj = VJ(object);
+	return vj_iter_from(vj_iter_obj, 0);
+}
+
+void *json_object_iter_next(json_t *object, void *iter)
+{
+	vj_t *o = VJ(object);
+	if (!object || object->type != JSON_OBJECT || !iter)
+		return NULL;
+	vj_iter_obj = o;
+	return vj_iter_from(o, (unsigned)((vj_t **)iter - o->val) + 1);
+}
+
+const char *json_object_iter_key(void *iter)
+{
+	if (!iter || !vj_iter_obj)
+		return NULL;
+	return vj_iter_obj->key[(vj_t **)iter - vj_iter_obj->val];
+}
+
+json_t *json_object_iter_value(void *iter)
+{
+	if (!iter)
+		return NULL;
+	return &(*(vj_t **)iter)->j;
+}
+
+void *json_object_key_to_iter(const char *key)
+{
+	unsigned k;
+	if (!key || !vj_iter_obj)
+		return NULL;
+	for (k = 0; k < VJ_MAXM; k++)
+		if (key == vj_iter_obj->key[k])
+			return &vj_iter_obj->val[k];
+	return NULL;
+}
+
+void *json_object_iter_at(json_t *object, const char *key)
+{
+	vj_t *o = VJ(object);
+	unsigned k;
+	if (!key || !object || object->type != JSON_OBJECT)
+		return NULL;
+	vj_iter_obj = o;
+	for (k = 0; k < VJ_MAXM; k++)
+		if (o->val[k] && vj_keyeq(o->key[k], key))
+			return &o->val[k];
+	return NULL;
+}
+
+int json_array_clear(json_t *array)
+{
+	vj_t *a = VJ(array);
+	unsigned k;
+
+	VJ_ALIVE(array);
+	if (!array || array->type != JSON_ARRAY)
+		return -1;
+	VJ_ROOT(array);
+	for (k = 0; k < VJ_MAXM; k++)
+		if (a->val[k])
+			vj_detach(a, k);
+	a->n = 0;
+	return 0;
+}
+
 /* ---- havoc helpers ---- */
 static void vj_havoc_payload(vj_t *v)
 {
@@ -615,6 +892,9 @@ static void vj_havoc_payload(vj_t *v)
 	for (i = 0; i < VJ_SLEN; i++)
 		v->s[i] = nondet_char();
 	v->s[VJ_SLEN] = '\0';
+	/* without JSON_ALLOW_NUL jansson refuses a document with an escaped U+0000 in a string; with
+	 * it, the decoded text may go on after the first NUL */
+	v->nul_inside = (vj_parse_flags & JSON_ALLOW_NUL) ? nondet_bool() : 0;
 }
 
 static json_type vj_nondet_type(void)
@@ -638,6 +918,7 @@ static vj_t *vj_raw(json_type t)
 	v->weight = 1;
 	v->dead = 0;
 	v->attached = 0;
+	v->nul_inside = 0;
 	for (k = 0; k < VJ_MAXM; k++) {
 		v->val[k] = NULL;
 		v->key[k][0] = '\0';
@@ -732,12 +1013,14 @@ static void vj_fill_error(json_error_t *error)
 		error->text[0] = nondet_char();
 		__CPROVER_assume(error->text[0] != '\0');
 		error->text[1] = '\0';
+		vf_untrusted_text = error;
 	}
 }
 
 json_t *json_loads(const char *input, size_t flags, json_error_t *error)
 {
 	json_t *r;
+	vj_parse_flags = flags;
 	if (!input) {
 		vj_fill_error(error);
 		return NULL;
@@ -751,6 +1034,7 @@ json_t *json_loads(const char *input, size_t flags, json_error_t *error)
 json_t *json_loadb(const char *buffer, size_t buflen, size_t flags, json_error_t *error)
 {
 	json_t *r;
+	vj_parse_flags = flags;
 	if (!buffer) {
 		vj_fill_error(error);
 		return NULL;
@@ -764,6 +1048,7 @@ json_t *json_loadb(const char *buffer, size_t buflen, size_t flags, json_error_t
 json_t *json_loadf(FILE *input, size_t flags, json_error_t *error)
 {
 	json_t *r;
+	vj_parse_flags = flags;
 	if (!input) {
 		vj_fill_error(error);
 		return NULL;
@@ -777,6 +1062,7 @@ json_t *json_loadf(FILE *input, size_t flags, json_error_t *error)
 json_t *json_load_file(const char *path, size_t flags, json_error_t *error)
 {
 	json_t *r;
+	vj_parse_flags = flags;
 	if (!path) {
 		vj_fill_error(error);
 		return NULL;
